@@ -931,6 +931,7 @@ fn program_alone_overruns(bytes: &[u8]) -> bool {
         per_yield: 4096,
         container: crate::vmsim::Container::Slice,
         shape: String::new(),
+        on_worker: true,
     };
     let (r, _) = crate::vmsim::run_vm(
         &Arc::new(case),
